@@ -81,7 +81,28 @@ def _work_wrapper(args):
     res.setdefault("viol", [])
     res.setdefault("samples", [])
     res.setdefault("counters", {})
-    res["viol"] = res["viol"][:MAX_VIOL_PER_TASK] if not res.get("keep_all_viol") else res["viol"]
+    if not res.get("keep_all_viol"):
+        # classify before truncating: known-finding cases must never crowd out unclassified ones
+        findings = load_findings(mod.PROPERTY)
+        unknown, per = [], {}
+        for c in res["viol"]:
+            name = None
+            for e in findings:
+                try:
+                    if mod.CLASSIFIERS[e["predicate"]](c):
+                        name = e["name"]
+                        break
+                except Exception:
+                    pass
+            if name is None:
+                if len(unknown) < MAX_VIOL_PER_TASK:
+                    unknown.append(c)
+            else:
+                b = per.setdefault(name, [])
+                if len(b) < 4:
+                    b.append(c)
+                res["counters"]["known_finding_cases"] = res["counters"].get("known_finding_cases", 0) + 1
+        res["viol"] = unknown + [c for b in per.values() for c in b]
     res["wall"] = time.time() - t0
     return res
 
@@ -186,40 +207,60 @@ def main(argv=None):
     done_tasks = 0
     capped = False
     ctx = mp.get_context(getattr(mod, "MP_CONTEXT", "fork"))
-    work_iter = ((modname, t) for t in tasks)
+
+    def absorb(res):
+        nonlocal evals, done_tasks
+        if "error" in res:
+            errors.append(res)
+            return
+        done_tasks += 1
+        evals += res["evals"]
+        for k, v in res["classes"].items():
+            classes[k] = classes.get(k, 0) + v
+        for k, v in res["counters"].items():
+            if k.startswith("max_"):
+                counters[k] = max(counters.get(k, 0), v)
+            else:
+                counters[k] = counters.get(k, 0) + v
+        if len(samples) < 6:
+            samples.extend(res["samples"][: 6 - len(samples)])
+        for c in res["viol"]:
+            cands.setdefault(case_key(c), c)
+
     if nworkers == 1:
-        results = map(_work_wrapper, work_iter)
-        pool = None
-    else:
-        pool = ctx.Pool(nworkers, maxtasksperchild=getattr(mod, "MAXTASKSPERCHILD", None))
-        results = pool.imap_unordered(_work_wrapper, work_iter, chunksize=1)
-    try:
-        for res in results:
-            if "error" in res:
-                errors.append(res)
-                if len(errors) > 3:
-                    break
-                continue
-            done_tasks += 1
-            evals += res["evals"]
-            for k, v in res["classes"].items():
-                classes[k] = classes.get(k, 0) + v
-            for k, v in res["counters"].items():
-                if k.startswith("max_"):
-                    counters[k] = max(counters.get(k, 0), v)
-                else:
-                    counters[k] = counters.get(k, 0) + v
-            if len(samples) < 6:
-                samples.extend(res["samples"][: 6 - len(samples)])
-            for c in res["viol"]:
-                cands.setdefault(case_key(c), c)
+        for t in tasks:
+            absorb(_work_wrapper((modname, t)))
+            if len(errors) > 3:
+                break
             if deadline and time.time() - t0 > deadline:
                 capped = True
                 break
-    finally:
-        if pool is not None:
-            pool.terminate()
-            pool.join()
+    else:
+        import concurrent.futures as cf
+
+        ex = cf.ProcessPoolExecutor(max_workers=nworkers, mp_context=ctx)
+        try:
+            futs = [ex.submit(_work_wrapper, (modname, t)) for t in tasks]
+            try:
+                for fut in cf.as_completed(futs):
+                    absorb(fut.result())
+                    if len(errors) > 3:
+                        break
+                    if deadline and time.time() - t0 > deadline:
+                        capped = True
+                        break
+            except cf.process.BrokenProcessPool as e:
+                print(f"ENGINE ERROR: a worker process died unexpectedly ({e}); results incomplete", file=sys.stderr)
+                sys.exit(2)
+        finally:
+            procs = list(getattr(ex, "_processes", {}).values())
+            ex.shutdown(wait=False, cancel_futures=True)
+            if capped or errors:
+                for pr in procs:
+                    try:
+                        pr.kill()
+                    except Exception:
+                        pass
     if errors:
         for e in errors:
             print("ENGINE ERROR in task", e["task"], "\n", e["error"], file=sys.stderr)
